@@ -56,13 +56,15 @@ def source_sets(sc):
     for i in range(3):
         a += ("2023-03-10T03:49:43.%03d+00:00 src=A idx=%d\n" % (559 + 3 * i, i)).encode()
         a += b"  continuation of %d\n\ttabbed\n" % i if i != 1 else b""
+    # messages of one file within the same millisecond, microseconds apart (the datetime field shows them with %.6f)
+    a += b"2023-03-10T03:49:43.565100+00:00 src=A idx=3\n2023-03-10T03:49:43.565100+00:00 src=A idx=4\n2023-03-10T03:49:43.565900+00:00 src=A idx=5\n"
     with open(os.path.join(d1, "a.log"), "wb") as f:
         f.write(a)
     wide = "日本-é.log"
     with open(os.path.join(d1, wide), "wb") as f:
         f.write(("2023-03-10T03:49:43.560+00:00 src=W idx=0\n2023-03-10T03:49:43.566+00:00 src=W idx=1").encode())
-    ut = b"".join(gen.utmp_record(7, 1000 + i, b"pts/%d" % i, b"t%d" % i, b"user%d" % i, b"h%d" % i, base, 561000 + 2000 * i, session=i)
-                  for i in range(3))
+    ut = b"".join(gen.utmp_record(7, 1000 + i, b"pts/%d" % i, b"t%d" % i, b"user%d" % i, b"h%d" % i, base, 561000 + (2000 * i if i < 3 else 4000 + 300 * (i - 2)), session=i)
+                  for i in range(5))
     with open(os.path.join(d1, "wtmp"), "wb") as f:
         f.write(ut)
     shutil.copyfile(os.path.join(REPO, "logs/programs/evtx/Microsoft-Windows-Kernel-PnP%4Configuration.evtx"), os.path.join(d1, "k.evtx"))
